@@ -222,6 +222,7 @@ class TMLE:
 
         # Step 3) Estimation of g-model (exposure model)
         if custom_model is None:
+            self._exp_model_custom = False
             fitmodel = propensity_score(self.df, self._exp_model, print_results=print_results)
             self.g1W = fitmodel.predict(self.df)
 
@@ -279,6 +280,7 @@ class TMLE:
 
         # Step 3b) Prediction for M if missing outcome data exists
         if custom_model is None:  # Logistic Regression model for predictions
+            self._miss_model_custom = False
             fitmodel = propensity_score(self.df, self._miss_model, print_results=print_results)
             dfx = self.df.copy()
             dfx[self.exposure] = 1
@@ -347,6 +349,7 @@ class TMLE:
 
         # Step 1) Prediction for Q (estimation of Q-model)
         if custom_model is None:  # Logistic Regression model for predictions
+            self._out_model_custom = False
             self._continuous_type = continuous_distribution
             if self._continuous_outcome:
                 if (continuous_distribution == 'gaussian') or (continuous_distribution == 'normal'):
